@@ -56,7 +56,20 @@ func (ex *C14Extra) optsFor() *stack.Opts {
 		}
 		return &stack.Opts{NameArguments: true}
 	}
-	return &stack.Opts{LocalGOROOT: ex.Tree.GOROOT, LocalGOPATHs: append([]string(nil), ex.Tree.GOPATHs...), NameArguments: true, GuessPaths: true, AnalyzeSources: true}
+	// the GOPATH list has spare capacity, as a slice built with append has: a
+	// library that appends to its alias writes into the caller's array
+	gp := make([]string, len(ex.Tree.GOPATHs), len(ex.Tree.GOPATHs)+2)
+	copy(gp, ex.Tree.GOPATHs)
+	return &stack.Opts{LocalGOROOT: ex.Tree.GOROOT, LocalGOPATHs: gp, NameArguments: true, GuessPaths: true, AnalyzeSources: true}
+}
+
+// optsEqual compares two Opts values including the hidden part of the GOPATH
+// slice (its spare capacity).
+func optsEqual(a, b *stack.Opts) bool {
+	if !reflect.DeepEqual(a, b) {
+		return false
+	}
+	return reflect.DeepEqual(a.LocalGOPATHs[:cap(a.LocalGOPATHs)], b.LocalGOPATHs[:cap(b.LocalGOPATHs)])
 }
 
 var c14Levels = []stack.Similarity{stack.ExactFlags, stack.ExactLines, stack.AnyPointer, stack.AnyValue}
@@ -270,6 +283,9 @@ func runInterleaved(ex *C14Extra, cov *Cov) ([]*taskState, []*stack.Snapshot, *t
 
 // CheckC14 executes one case.
 func CheckC14(c *Case, cov *Cov) []*Violation {
+	if f := extraModes["C14/"+c.Mode]; f != nil {
+		return f(c, cov)
+	}
 	var ex C14Extra
 	if err := json.Unmarshal(c.Extra, &ex); err != nil {
 		panic(err)
@@ -283,6 +299,9 @@ func CheckC14(c *Case, cov *Cov) []*Violation {
 			panic(err)
 		}
 		defer os.RemoveAll(ex.Tree.Dir)
+		// environment a user may well have; the library does not read it today
+		os.Setenv("GOMODCACHE", ex.Tree.GOPATHs[0]+"/pkg/mod")
+		defer os.Unsetenv("GOMODCACHE")
 	}
 	if c.Mode == "history" {
 		hopts := ex.optsFor()
@@ -359,8 +378,8 @@ func CheckC14(c *Case, cov *Cov) []*Violation {
 				}
 			}
 		}
-		if !reflect.DeepEqual(hopts, ex.optsFor()) {
-			add("opts-mutated", fmt.Sprintf("the Opts value passed to ScanSnapshot was modified by the library: %+v, was %+v", *hopts, *ex.optsFor()))
+		if !optsEqual(hopts, ex.optsFor()) {
+			add("opts-mutated", fmt.Sprintf("the Opts value passed to ScanSnapshot was modified by the library (spare capacity of LocalGOPATHs included): %+v / %q, was %+v", *hopts, hopts.LocalGOPATHs[:cap(hopts.LocalGOPATHs)], *ex.optsFor()))
 		}
 		if cov != nil && merged && len(ex.History) >= 2 {
 			cov.Distinct[core.Hash(c.Extra)]++
@@ -398,8 +417,8 @@ func CheckC14(c *Case, cov *Cov) []*Violation {
 			}
 		}
 	}
-	if !reflect.DeepEqual(opts, ex.optsFor()) {
-		add("opts-mutated", fmt.Sprintf("the Opts value shared by the tasks was modified by the library: %+v, was %+v", *opts, *ex.optsFor()))
+	if !optsEqual(opts, ex.optsFor()) {
+		add("opts-mutated", fmt.Sprintf("the Opts value shared by the tasks was modified by the library (spare capacity of LocalGOPATHs included): %+v / %q, was %+v", *opts, opts.LocalGOPATHs[:cap(opts.LocalGOPATHs)], *ex.optsFor()))
 		return vs
 	}
 	for i, di := range ex.Shared {
@@ -567,6 +586,7 @@ func init() {
 		Stubs:           []string{"task scheduler (token passing, seeded picks)", "io.Reader/io.Writer of every task"},
 		ShrinkBudget:    400,
 		Post:            postC14,
+		Posts:           []func(uint64, string, *Cov) ([]*Violation, map[string]any, error){postConsole},
 		WorkerProcs:     "1",
 		IsolationClause: "C14.history",
 		SelfTestProcs:   []string{"1", "1"},
@@ -597,6 +617,7 @@ func RaceStageC14(seed uint64, rounds int) []*Violation {
 		if err := writeTreeFiles(tree.Dir, tree.Files); err != nil {
 			panic(err)
 		}
+		os.Setenv("GOMODCACHE", tree.GOPATHs[0]+"/pkg/mod")
 		ex := &C14Extra{Tree: tree}
 		for i := 0; i < nd; i++ {
 			ex.Docs = append(ex.Docs, c14Doc(r, files))
@@ -702,7 +723,7 @@ func RaceStageC14(seed uint64, rounds int) []*Violation {
 		}
 		exj, _ := json.Marshal(ex)
 		c := &Case{Prop: "C14", Run: uint64(round), Seed: seed, Mode: "free-running", Extra: exj}
-		if !reflect.DeepEqual(ropts, ex.optsFor()) {
+		if !optsEqual(ropts, ex.optsFor()) {
 			vs = append(vs, &Violation{Prop: "C14", Clause: "C14.race", Case: c, Msg: fmt.Sprintf("free-running: the shared Opts value was modified: %+v", *ropts)})
 		}
 		for i, t := range tasks {
@@ -731,6 +752,9 @@ func postC14(seed uint64, tier string, cov *Cov) ([]*Violation, map[string]any, 
 // shrinkC14 minimises a tasksim / history case: drop tasks, operations,
 // scheduler picks, shared snapshots' goroutines.
 func shrinkC14(c *Case, still func(*Case) bool, budget int) *Case {
+	if c.Mode == "console" {
+		return Shrink(c, still, 60) // every evaluation execs the driver
+	}
 	var ex C14Extra
 	if json.Unmarshal(c.Extra, &ex) != nil {
 		return c
